@@ -20,7 +20,7 @@ class C03(object):
     assumptions = ['a ConvergenceError on either side makes the pair inconclusive (reduction legitimately changes '
                    'conditioning); any other exception on exactly one side is a violation',
                    'cyclic class: agreement bound 1e-8*max(1,|v|) with both runs at tolerance 1e-13']
-    required_counters = ('pairs.compared', 'values.compared', 'alias.pairs', 'ic_on_alias.pairs', 'model_text.pairs', 'after_earlier_parse.pairs', 'hygiene_names.pairs')
+    required_counters = ('pairs.compared', 'values.compared', 'alias.pairs', 'ic_on_alias.pairs', 'model_text.pairs', 'after_earlier_parse.pairs', 'hygiene_names.pairs', 'traced_step.pairs', 'steady_search_accepted.pairs')
 
     def n_cases(self, tier):
         return 300 if tier == 'quick' else 30000
@@ -65,12 +65,23 @@ class C03(object):
             else:
                 other = G.gen_affine(rng, n_simul=rng.randint(1, 3), rho=0.3, maxtime=2, tol=1e-9)
                 case['first'] = G.render(other)
+        # solver options that touch the same machinery: the step trace of one period, the initial steady-state search
+        if idx % 10 in (3, 6):
+            case['trace_step'] = rng.randint(1, max(1, spec['maxtime']))
+        if idx % 10 in (7, 8) or rng.random() < 0.1:
+            case['steady'] = {'T': rng.choice([30, 100, 300]), 'tol': rng.choice([1e-4, 1e-6])}
         return case
 
-    def solve(self, text, reduction, first=None):
+    def solve(self, text, reduction, first=None, trace_step=None, steady=None):
         from sfc_models.equation_solver import EquationSolver, ConvergenceError
         s = EquationSolver(run_equation_reduction=reduction)
         s.MaxIterations = 5000
+        if trace_step is not None:
+            s.TraceStep = trace_step
+        if steady is not None:
+            s.ParameterSolveInitialSteadyState = True
+            s.ParameterInitialSteadyStateMaxTime = steady['T']
+            s.ParameterInitialSteadyStateErrorToler = steady['tol']
         try:
             with contextlib.redirect_stdout(io.StringIO()):
                 if first is not None:
@@ -147,22 +158,30 @@ class C03(object):
             return self.run_model_text(case)
         rec = monitors.Recorder()
         spec = case['spec']
-        oa, a = self.solve(case['text'], False, case.get('first'))
-        ob, b = self.solve(case['text'], True, case.get('first'))
+        oa, a = self.solve(case['text'], False, case.get('first'), case.get('trace_step'), case.get('steady'))
+        ob, b = self.solve(case['text'], True, case.get('first'), case.get('trace_step'), case.get('steady'))
         if case.get('first') is not None:
             rec.count('after_earlier_parse.pairs')
         if case.get('hygiene'):
             rec.count('hygiene_names.pairs')
         shape = ('cyclic' if case['cyclic'] else 'acyclic') + ('|alias' if spec['aliases'] else '') + \
                 ('|deco' if spec['decos'] else '') + ('|ic' if spec['ics'] else '')
+        if case.get('steady'):
+            shape += '|steady_search'
+        if case.get('trace_step'):
+            shape += '|trace'
         if oa != 'ok' or ob != 'ok':
-            if 'ConvergenceError' in (oa, ob) or (oa != 'ok' and ob != 'ok'):
+            if 'ConvergenceError' in (oa, ob) or 'NoEquilibriumError' in (oa, ob) or (oa != 'ok' and ob != 'ok'):
                 return {'verdict': 'notjudged', 'shape': shape + '|%s/%s' % (oa, ob)}
             side = 'reduced' if ob != 'ok' else 'unreduced'
             rec.violate('one_side_raised', {'side': side, 'unreduced': oa, 'reduced': ob,
                                             'err': a if oa != 'ok' else b, 'text': case['text']})
             return {'verdict': 'violated', 'shape': shape, 'counters': rec.counters, 'violations': rec.violations}
         rec.count('pairs.compared')
+        if case.get('trace_step'):
+            rec.count('traced_step.pairs')
+        if case.get('steady'):
+            rec.count('steady_search_accepted.pairs')
         if spec['aliases']:
             rec.count('alias.pairs')
         if any(al['name'] in spec['ics'] for al in spec['aliases']):
@@ -172,6 +191,10 @@ class C03(object):
                                                    'only_reduced': sorted(set(b) - set(a)), 'text': case['text']})
         else:
             tol = 1e-8 if case['cyclic'] else 1e-12
+            if case.get('steady'):
+                # the search solves each of its periods only to its own tolerance: the installed k=0 values (and what
+                # follows from them) agree between the two runs to a small multiple of that tolerance, not better
+                tol = 100.0 * case['steady']['tol']
             worst = 0.0
             for n in a:
                 if len(a[n]) != len(b[n]):
